@@ -6,7 +6,7 @@ CONSTANTS
   Power <- MCUnitPower
   MaxVal = 2
   NValid = 2
-  MaxRound = 1
+  MaxRound = 0
   ProposerOf <- MCProposerOf
   AppValue <- MCAppValue
   IsValid <- MCIsValid
@@ -17,7 +17,7 @@ CONSTANTS
   MaxHeight = 1
   MsgMaxHeight = 1
   MaxRecv = 5
-  PropShift = 0
+  PropShift = 1
 INIT Init
 NEXT Next
 VIEW view
